@@ -67,6 +67,14 @@ func TestVerifC17VcJwt(t *testing.T) {
 			}
 		}
 	}
+	for k := range only { // replaying a step of a key history needs the earlier steps on the same object
+		for _, ph := range []string{"@history-key-removed", "@history-key-restored"} {
+			if strings.Contains(k, ph) {
+				only[strings.Replace(k, ph, "", 1)] = true
+				only[strings.Replace(k, ph, "@history-key-removed", 1)] = true
+			}
+		}
+	}
 	opsF, _ := os.Create(filepath.Join(outDir, "ops.jsonl"))
 	implF, _ := os.Create(filepath.Join(outDir, "impl.out"))
 	ops, impl := bufio.NewWriterSize(opsF, 1<<20), bufio.NewWriterSize(implF, 1<<20)
@@ -110,65 +118,95 @@ func TestVerifC17VcJwt(t *testing.T) {
 	sv := signatureVerifier{keyResolver: mockKeyResolver}
 	now := time.Now()
 
-	for round := 0; round < rounds; round++ {
-		for ki, signer := range issuers {
-			issuer := didOf(signer)
-			claims := map[string]interface{}{"iss": issuer, "sub": "did:web:example.com:iam:holder", "jti": issuer + "#vc-1",
-				"nbf": now.Add(-time.Minute).Unix(), "exp": now.Add(time.Hour).Unix(),
-				"vc": map[string]interface{}{"@context": []string{"https://www.w3.org/2018/credentials/v1"}, "type": []string{"VerifiableCredential"},
-					"credentialSubject": map[string]interface{}{"id": "did:web:example.com:iam:holder"}}}
-			base := tokenV2.VNewBase(map[string]interface{}{"typ": "JWT", "kid": signer.KeyID()}, tokenV2.VJSON(claims), signer, issuers[(ki+1)%len(issuers)], mallory)
-			variants := tokenV2.VHostile(r, base, 30)
-			// the same credential (iss = this issuer) signed by each look-alike party with ITS key and ITS kid
-			for _, l := range lookalikes[signer.KeyName()] {
-				lb := tokenV2.VNewBase(map[string]interface{}{"typ": "JWT", "kid": signer.KeyID()}, tokenV2.VJSON(claims), signer, issuers[(ki+1)%len(issuers)], l)
-				for _, v := range tokenV2.VHostile(r, lb, 0) {
-					if v.By == "attacker" {
-						v.Name = "lookalike(" + l.KeyName() + ")-" + v.Name
-						v.Class = "lookalike-did-" + v.Class
-						variants = append(variants, v)
-					}
-				}
+	// The long-lived object (jar / signature verifier / authz server) is used across a KEY HISTORY: after the main run every key is
+	// removed from the key source and the valid tokens are presented again (must be refused: the verification key is what the
+	// source returns NOW), then the keys are restored (accepted again).
+	savedKeys := map[string]crypto.PublicKey{}
+	for _, phase := range []string{"", "@history-key-removed", "@history-key-restored"} {
+		phaseRounds := rounds
+		switch phase {
+		case "@history-key-removed":
+			phaseRounds = 1
+			for k, v := range source {
+				savedKeys[k] = v
+				delete(source, k)
 			}
-			for _, v := range variants {
-				v.Name = "r" + strconv.Itoa(round) + "-" + signer.KeyName() + "-" + v.Name
-				if len(only) > 0 && !only["vcjwt|"+v.Name] {
-					continue
-				}
-				info, _ := tokenV2.VAnalyse(v.Tok)
-				verd := map[string]interface{}{}
-				if info.Parses && len(info.Sigs) == 1 {
-					kid := info.Sigs[0].Kid
-					if kid == "" {
-						kid = issuer
+		case "@history-key-restored":
+			phaseRounds = 1
+			for k, v := range savedKeys {
+				source[k] = v
+			}
+		}
+		for round := 0; round < phaseRounds; round++ {
+			for ki, signer := range issuers {
+				issuer := didOf(signer)
+				claims := map[string]interface{}{"iss": issuer, "sub": "did:web:example.com:iam:holder", "jti": issuer + "#vc-1",
+					"nbf": now.Add(-time.Minute).Unix(), "exp": now.Add(time.Hour).Unix(),
+					"vc": map[string]interface{}{"@context": []string{"https://www.w3.org/2018/credentials/v1"}, "type": []string{"VerifiableCredential"},
+						"credentialSubject": map[string]interface{}{"id": "did:web:example.com:iam:holder"}}}
+				base := tokenV2.VNewBase(map[string]interface{}{"typ": "JWT", "kid": signer.KeyID()}, tokenV2.VJSON(claims), signer, issuers[(ki+1)%len(issuers)], mallory)
+				variants := tokenV2.VHostile(r, base, 30)
+				// the same credential (iss = this issuer) signed by each look-alike party with ITS key and ITS kid
+				for _, l := range lookalikes[signer.KeyName()] {
+					lb := tokenV2.VNewBase(map[string]interface{}{"typ": "JWT", "kid": signer.KeyID()}, tokenV2.VJSON(claims), signer, issuers[(ki+1)%len(issuers)], l)
+					for _, v := range tokenV2.VHostile(r, lb, 0) {
+						if v.By == "attacker" {
+							v.Name = "lookalike(" + l.KeyName() + ")-" + v.Name
+							v.Class = "lookalike-did-" + v.Class
+							variants = append(variants, v)
+						}
 					}
-					key, ok := source[kid]
-					verd["keyfound"] = ok
-					if ok {
-						verd["fits"] = tokenV2.VAlgFitsKey(info.Sigs[0].Alg, key)
-						_, err := jwt.ParseString(v.Tok, jwt.WithKey(jwa.SignatureAlgorithm(info.Sigs[0].Alg), key), jwt.WithVerify(true))
-						verd["verified"] = err == nil
-					}
 				}
-				res := "reject"
-				func() {
-					defer func() {
-						if p := recover(); p != nil {
-							res = "panic"
+				for _, v := range variants {
+					v.Name = "r" + strconv.Itoa(round) + "-" + signer.KeyName() + "-" + v.Name
+					if phase != "" { // key history on the long-lived object: only the plain valid token, after the key source changed
+						if v.Class != "valid" || !strings.HasSuffix(v.Name, "-valid") {
+							continue
+						}
+						v.Name += phase
+						if phase == "@history-key-removed" {
+							v.Class = "key-removed"
+						}
+					}
+					if len(only) > 0 && !only["vcjwt|"+v.Name] {
+						continue
+					}
+					info, _ := tokenV2.VAnalyse(v.Tok)
+					verd := map[string]interface{}{}
+					if info.Parses && len(info.Sigs) == 1 {
+						kid := info.Sigs[0].Kid
+						if kid == "" {
+							kid = issuer
+						}
+						key, ok := source[kid]
+						verd["keyfound"] = ok
+						if ok {
+							verd["fits"] = tokenV2.VAlgFitsKey(info.Sigs[0].Alg, key)
+							_, err := jwt.ParseString(v.Tok, jwt.WithKey(jwa.SignatureAlgorithm(info.Sigs[0].Alg), key), jwt.WithVerify(true))
+							verd["verified"] = err == nil
+						}
+					}
+					res := "reject"
+					func() {
+						defer func() {
+							if p := recover(); p != nil {
+								res = "panic"
+							}
+						}()
+						if err := sv.jwtSignature(v.Tok, issuer, nil); err == nil {
+							res = "accept"
 						}
 					}()
-					if err := sv.jwtSignature(v.Tok, issuer, nil); err == nil {
-						res = "accept"
-					}
-				}()
-				b, _ := json.Marshal(vVcOp{Op: "consume", C: "vcjwt", Name: v.Name, Class: v.Class, HAlg: v.HAlg, By: v.By, Issuer: issuer, Info: info, V: verd})
-				ops.Write(b)
-				ops.WriteByte('\n')
-				impl.WriteString(res + "\n")
-				n++
+					b, _ := json.Marshal(vVcOp{Op: "consume", C: "vcjwt", Name: v.Name, Class: v.Class, HAlg: v.HAlg, By: v.By, Issuer: issuer, Info: info, V: verd})
+					ops.Write(b)
+					ops.WriteByte('\n')
+					impl.WriteString(res + "\n")
+					n++
+				}
 			}
 		}
 	}
+
 	// ---------------- the JSON-LD format of the same clause: signatureVerifier.jsonldProof. The proof's verificationMethod must
 	// be a key of the issuer; documents are signed with the real LDProof.Sign by the issuer, by an unrelated resolvable party
 	// and by look-alike parties (DID a textual extension / prefix of the issuer's)
